@@ -20,9 +20,14 @@ namespace ScyllaVerif.C08
 
 abbrev Bytes := List UInt8
 
+/-- What a decoder of the driver can do with a byte string: return a value, return an error, or PANIC (unwind /
+abort the client).  `panic` is produced by the model exactly where the Rust code contains a partial operation
+(`Buf::advance`, `unwrap`, `Bytes::slice_ref`, usize subtraction) and its precondition does not hold; `Props/C08`
+proves that it is never produced. -/
 inductive Outcome (α : Type) where
   | ok (a : α)
   | err (k : String)
+  | panic (site : String)
   deriving Repr
 
 structure St where
@@ -39,6 +44,7 @@ def M (α : Type) := St → Outcome α × St
   match m s with
   | (.ok a, s') => f a s'
   | (.err k, s') => (.err k, s')
+  | (.panic m, s') => (.panic m, s')
 
 instance : Monad M where
   pure := M.pure
@@ -46,11 +52,15 @@ instance : Monad M where
 
 def fail (k : String) : M α := fun s => (.err k, s)
 
+/-- A panic of the Rust code at `site`. -/
+def panicAt (site : String) : M α := fun s => (.panic site, s)
+
 /-- `.map_err(Variant)`: prefix the error kind with the tag of the wrapping variant. -/
 def tag (t : String) (m : M α) : M α := fun s =>
   match m s with
   | (.ok a, s') => (.ok a, s')
   | (.err k, s') => (.err (t ++ "." ++ k), s')
+  | (.panic m, s') => (.panic m, s')
 
 /-- Ghost: `Vec::with_capacity(n)` / `HashMap::with_capacity(n)` (counted in elements). -/
 def allocReq (n : Nat) : M Unit := fun s => (.ok (), { s with alloc := s.alloc + n })
@@ -152,8 +162,44 @@ def readBytesMap : M (List (Bytes × Bytes)) := do
   allocReq n
   loopN n (do let k ← readString; let v ← readBytes; pure (k, v))
 
-/-- `read_uuid`. -/
-def readUuid : M Bytes := readRaw 16
+/-- `read_uuid`: `read_raw_bytes(16)` then `raw.try_into().unwrap()` (`&[u8] → &[u8; 16]`, panics unless the
+slice has exactly 16 bytes). -/
+def readUuid : M Bytes := do
+  let raw ← readRaw 16
+  if raw.length = 16 then pure raw else panicAt "read_uuid: try_into().unwrap()"
+
+/-- `Buf::advance(n)` on `Bytes`: panics when `n` exceeds what remains. -/
+def advance (n : Nat) : M Unit := fun s =>
+  if n > s.buf.length then (.panic "Bytes::advance", s) else (.ok (), { s with buf := s.buf.drop n })
+
+/-- `let buf = &mut &*body; let v = m(buf)?` — run a reader on a COPY of the slice reference: the buffer itself is
+not consumed; the copy's remaining length is returned with the value. -/
+def onCopy (m : M α) : M (α × Nat) := fun s =>
+  match m s with
+  | (.ok a, s') => (.ok (a, s'.buf.length), { s' with buf := s.buf })
+  | (.err k, s') => (.err k, s')
+  | (.panic k, s') => (.panic k, s')
+
+/-- The pattern of `parse_response_body_extensions`: `let body_len = body.len(); let buf = &mut &*body;
+let v = m(buf)?; let buf_len = buf.len(); body.advance(body_len - buf_len)` (the `usize` subtraction panics on
+underflow, `advance` when out of range). -/
+def readThenAdvance (m : M α) : M α := do
+  let bodyLen ← remaining
+  let r ← onCopy m
+  if r.2 > bodyLen then panicAt "body_len - buf_len" else do
+    advance (bodyLen - r.2)
+    pure r.1
+
+/-- Run `m` and report whether what it left is still inside the slice it started from (`true` = the later
+`parent.slice_ref(rest)` is legal). -/
+def tracked (m : M α) : M (α × Bool) := fun s =>
+  match m s with
+  | (.ok a, s') => (.ok (a, s'.buf.isSuffixOf s.buf), s')
+  | (.err k, s') => (.err k, s')
+  | (.panic k, s') => (.panic k, s')
+
+/-- `parent.slice_ref(sub)`: panics unless `sub` lies inside `parent`. -/
+def sliceRef (inside : Bool) : M Unit := if inside then pure () else panicAt "Bytes::slice_ref"
 
 structure Addr where
   ip : Bytes
